@@ -498,6 +498,8 @@ func oneHPHistory(r *mon.Run, i int, dir string) {
 		return
 	}
 	quiet := dbMode{file: mode.file, dir: mode.dir}
+	reportMu.Lock()
+	defer reportMu.Unlock()
 	small := ops[:f.At+1]
 	if wantShrink(f.Key) {
 		small = shrink(ops, f.At, f.Key, func(c []hpOp) *failure {
